@@ -110,6 +110,22 @@ def gen_cases(tier, seed):
         sb = cg.shell(rng, lb, K=rng.randint(1, 2), bits=bits, cen=cg.add(o, cg.tiny_offset(rng)), hi=min(50.0, cg.exp_cap(lb)))
         ch = [{"pos": cg.add(o, cg.center(rng, 2.0, 3)), "q": 1.5}, {"pos": o, "q": -2.0}]
         cases.append({"id": len(cases) + 1, "kind": "near", "basis": [sa, sb], "charges": ch, "raw": [[0, 1], [1, 0]]})
+    for la, lb in [(0, 0), (0, 1), (1, 1), (0, 2)]:
+        # core functions (the tightest exponents the property allows) on a nucleus ~100 bohr from the coordinate origin,
+        # charges on the nucleus and 1e-3..1e-5 bohr off it: (alpha + beta) |P|^2 ~ 1e9, Boys arguments below one
+        rng = cg.rng_for(seed, "C03", "core", la, lb)
+        o = [cg.dyadic(rng.choice([-1, 1]) * (rng.choice([64.0, 96.5, 120.25]) + rng.uniform(-0.5, 0.5)), 30) for _ in range(3)]
+        shs = []
+        for l_ in (la, lb):
+            cap = cg.exp_cap(l_)
+            sh = cg.shell(rng, l_, K=2, M=rng.randint(1, 2), bits=bits, cen=o if l_ == la else cg.add(o, cg.tiny_offset(rng)))
+            sh["exps"] = [cg.exponent(rng, 0.3 * cap, cap, bits), cg.exponent(rng, 0.01 * cap, 0.05 * cap, bits)]
+            shs.append(sh)
+        if rng.random() < 0.5:
+            shs[1]["center"] = o
+        ch = [{"pos": o, "q": 3.0}, {"pos": cg.add(o, cg.tiny_offset(rng)), "q": -1.5}, {"pos": cg.add(o, cg.tiny_offset(rng)), "q": 2.0},
+              {"pos": cg.add(o, cg.center(rng, 0.05, 12)), "q": 1.0}]
+        cases.append({"id": len(cases) + 1, "kind": "near", "basis": shs, "charges": ch, "raw": [[0, 1], [1, 0]]})
     for d in range(10 if quick else 60):
         rng = cg.rng_for(seed, "C03", "basis", d)
         n = rng.randint(1, 4)
